@@ -138,11 +138,10 @@ impl ZbsdiffBuilder {
                     extra_data.push(self.new_data[new_pos + i]);
                 }
 
-                control_entries.push(ControlEntry::new(
-                    0,
-                    extra_chunk_size as i64,
-                    old_pos as i64, // Seek to maintain position tracking
-                ));
+                // The seek offset is relative to the patcher's current old
+                // position, which already equals `old_pos` (it advances with
+                // every diff byte), so no seek is needed here.
+                control_entries.push(ControlEntry::new(0, extra_chunk_size as i64, 0));
 
                 new_pos += extra_chunk_size;
                 // old_pos stays the same for extra data
